@@ -449,6 +449,17 @@ func (env *Env) qualified(pkgName, name string) (Val, bool) {
 					if c, ok := o.(*types.Const); ok {
 						return Val{S: env.g.constVal(c.Type(), c.Val()), G: GType{T: c.Type()}}, true
 					}
+					if v, ok := o.(*types.Var); ok && env.ex != nil {
+						if sp := env.g.P.SSAPkgs[tp.Path()]; sp != nil {
+							if gl, ok := sp.Members[name].(*ssa.Global); ok {
+								ref := env.ex.globalRef(gl)
+								if _, isSt := v.Type().Underlying().(*types.Struct); isSt {
+									return Val{S: ref, G: GType{T: v.Type(), Loc: true}}, true
+								}
+								return Val{S: fmt.Sprintf("(select %s %s)", env.ex.compGet(env.st, env.g.cellComp(v.Type())), ref), G: GType{T: v.Type()}}, true
+							}
+						}
+					}
 				}
 			}
 		}
@@ -874,6 +885,48 @@ func (env *Env) call(c *ECall) Val {
 			return env.adapt(v, to)
 		}
 		return Val{env.ex.convert(v.G.T, to.T, v.S), to}
+	case "called": // called(Callee, n): the n-th call of Callee was executed on this path
+		need(2)
+		cid, ok := c.Args[0].(*EIdent)
+		if !ok {
+			sfail("called(Callee, n)")
+		}
+		n, _ := strconv.Atoi(c.Args[1].String())
+		for _, rec := range env.ex.callLog {
+			if rec.short == cid.Name && rec.ord == n {
+				pc := rec.pc
+				if pc == "" {
+					pc = "true"
+				}
+				return Val{pc, tBool}
+			}
+		}
+		sfail("called: no call %s#%d on record", cid.Name, n)
+	case "callres": // callres(Callee, n, i): i-th result of the n-th call of Callee in this function
+		need(3)
+		cid, ok := c.Args[0].(*EIdent)
+		if !ok {
+			sfail("callres(Callee, n, i)")
+		}
+		n, _ := strconv.Atoi(c.Args[1].String())
+		i, _ := strconv.Atoi(c.Args[2].String())
+		for _, rec := range env.ex.callLog {
+			if rec.short == cid.Name && rec.ord == n {
+				if i >= len(rec.res) {
+					sfail("callres: call %s#%d has %d results", cid.Name, n, len(rec.res))
+				}
+				var t types.Type
+				if v, ok := rec.instr.(ssa.Value); ok {
+					if tt, isT := v.Type().(*types.Tuple); isT {
+						t = tt.At(i).Type()
+					} else {
+						t = v.Type()
+					}
+				}
+				return Val{rec.res[i], GType{T: t}}
+			}
+		}
+		sfail("callres: no call %s#%d on record", cid.Name, n)
 	case "fst", "snd", "third":
 		need(1)
 		v := arg(0)
